@@ -306,7 +306,9 @@ def u_read_balance_check(I):
     e = [I.fresh('final_balance%d' % i, 'int') for i in range(2)]
     tree = [T('ReactionName', 'r'), T('Reactants'), T('TransformationChain')]
     rd = Obj(cls, {'tree': tree, 'RINGgroups': None, 'atom_names': [], 'atom_belonging_mol': [], 'electronbalance': []}, 'param')
-    I.world.contracts[(RQR, 'ReactionQueryReader.ReadReactants')] = lambda I_, a, k: (rd.fields.__setitem__('atom_names', ['c1', 'h1']), rd.fields.__setitem__('electronbalance', [0, 0]))[1]
+    # labels may repeat (the molecule reader documents it: a label refers to the first atom declared with it); the balance is kept per ATOM
+    names = [['c1', 'h1'], ['c1', 'c1']][ctx.choose([True, True], 'labels: distinct / one label on two atoms')]
+    I.world.contracts[(RQR, 'ReactionQueryReader.ReadReactants')] = lambda I_, a, k: (rd.fields.__setitem__('atom_names', list(names)), rd.fields.__setitem__('electronbalance', [0, 0]))[1]
     I.world.contracts[(RQR, 'ReactionQueryReader.ReadTransformationChain')] = lambda I_, a, k: rd.fields.__setitem__('electronbalance', list(e))
     rq = Obj(source.module(RQ).classes['ReactionQuery'], {'transformations': [], 'reactantquery': {}, 'atom_names': []}, 'fresh')
     I.world.ctor_hooks['ReactionQuery'] = lambda I_, c, a, k: rq
